@@ -28,6 +28,8 @@ mod region;
 mod region_metadata;
 mod region_state;
 mod regions;
+#[cfg(feature = "verif")]
+pub mod verif;
 
 pub use disk_usage::*;
 pub use error::*;
@@ -95,6 +97,10 @@ impl Database {
             file.set_len(min_len as u64)?;
             file.sync_all()?;
             file_len = min_len;
+            #[cfg(feature = "verif")]
+            verif::tap(verif::Event::SetLen { file: verif::FileKind::Data, len: min_len });
+            #[cfg(feature = "verif")]
+            verif::tap(verif::Event::Sync { file: verif::FileKind::Data });
         }
 
         let regions = Regions::open(path)?;
@@ -152,6 +158,8 @@ impl Database {
             self, target_len, len
         );
         file.set_len(target_len as u64)?;
+        #[cfg(feature = "verif")]
+        verif::tap(verif::Event::SetLen { file: verif::FileKind::Data, len: target_len });
         self.0.cached_file_len.store(target_len, Ordering::Relaxed);
         *mmap = create_mmap(&file)?;
         Ok(())
@@ -212,6 +220,8 @@ impl Database {
     #[inline]
     pub(crate) fn write(&self, start: usize, data: &[u8]) {
         write_to_mmap(&self.mmap(), start, data);
+        #[cfg(feature = "verif")]
+        verif::tap(verif::Event::MmapWrite { file: verif::FileKind::Data, off: start, len: data.len() });
     }
 
     pub(crate) fn copy(&self, src: usize, dst: usize, len: usize) -> Result<()> {
@@ -232,6 +242,8 @@ impl Database {
 
         let mmap = self.mmap();
         write_to_mmap(&mmap, dst, &mmap[src..src_end]);
+        #[cfg(feature = "verif")]
+        verif::tap(verif::Event::MmapWrite { file: verif::FileKind::Data, off: dst, len });
         Ok(())
     }
 
@@ -355,11 +367,15 @@ impl Database {
                 }
                 return Err(e.into());
             }
+            #[cfg(feature = "verif")]
+            verif::tap(verif::Event::FlushAsync { file: verif::FileKind::Data, off: flush_start, len: flush_end - flush_start });
         }
 
         // Data must be durable before metadata (crash safety).
         self.regions().flush()?;
         self.file().sync_data()?;
+        #[cfg(feature = "verif")]
+        verif::tap(verif::Event::Sync { file: verif::FileKind::Data });
         self.regions().sync_data()?;
         for (region, _) in &dirty_regions {
             region.meta().mark_clean();
@@ -505,6 +521,8 @@ impl Database {
             debug!("{}: punch_holes syncing after {} punches", self, punched);
             let file = self.file();
             file.sync_data()?;
+            #[cfg(feature = "verif")]
+            verif::tap(verif::Event::Sync { file: verif::FileKind::Data });
         }
 
         Ok(())
